@@ -217,6 +217,7 @@ def _normalise_syntax(tree):
       * `a, b = x, y` (independent, same length)  ->  `a = x; b = y`
       * `if a: (if b: X)` with no else on either  ->  `if a and b: X`
       * `while True: (if c: break); B`  ->  `while not c: B`
+      * `for v in itertools.count(a): B`  ->  `v = a - 1; while True: v += 1; B`
       * `name = <constant>` for a local that is never read  ->  removed
     """
     import copy as _copy
@@ -307,6 +308,12 @@ def _normalise_syntax(tree):
                     for t, v in zip(ts, vs):
                         out.extend(one(ast.copy_location(ast.Assign(targets=[t], value=v), st)))
                     return out
+        if isinstance(st, ast.For) and not st.orelse and isinstance(st.target, ast.Name) and isinstance(st.iter, ast.Call) and ast.unparse(st.iter.func) in ("itertools.count", "count") and len(st.iter.args) <= 1 and not st.iter.keywords and (not st.iter.args or (isinstance(st.iter.args[0], ast.Constant) and isinstance(st.iter.args[0].value, int))):
+            # for v in itertools.count(a): B   ->   v = a - 1; while True: v += 1; B
+            start = st.iter.args[0].value if st.iter.args else 0
+            init = ast.copy_location(ast.Assign(targets=[ast.Name(id=st.target.id, ctx=ast.Store())], value=ast.Constant(value=start - 1)), st)
+            step = ast.copy_location(ast.AugAssign(target=ast.Name(id=st.target.id, ctx=ast.Store()), op=ast.Add(), value=ast.Constant(value=1)), st)
+            return [init, ast.copy_location(ast.While(test=ast.Constant(value=True), body=[step] + st.body, orelse=[]), st)]
         if isinstance(st, ast.While) and not st.orelse and isinstance(st.test, ast.Constant) and st.test.value is True and st.body and isinstance(st.body[0], ast.If) and not st.body[0].orelse and len(st.body[0].body) == 1 and isinstance(st.body[0].body[0], ast.Break):
             t = st.body[0].test
             t = t.operand if isinstance(t, ast.UnaryOp) and isinstance(t.op, ast.Not) else ast.copy_location(ast.UnaryOp(op=ast.Not(), operand=t), t)
@@ -851,14 +858,16 @@ def _inline_helpers(trees):
                     if nm in anchors or nm.startswith("__") or h.decorator_list:
                         continue
                     owners = method_owners.get(nm, [])
+                    n_refs_here = refs.get(nm, 0)
                     if len(owners) == 1:
-                        if refs.get(nm, 0) != 1:
+                        if not 1 <= n_refs_here <= 4:
                             continue
                     else:
                         # the same helper name in several classes: fine if they are unrelated by inheritance and every
-                        # reference in the package is the single `self.<name>` of one of them
+                        # reference in the package is a `self.<name>` inside one of them
                         inside = {id(c_): sum(1 for x in ast.walk(c_) if (isinstance(x, ast.Attribute) and x.attr == nm) or (isinstance(x, ast.Constant) and x.value == nm)) for c_ in owners}
-                        if inside.get(id(cls_)) != 1 or sum(inside.values()) != refs.get(nm, 0):
+                        n_refs_here = inside.get(id(cls_), 0)
+                        if not 1 <= n_refs_here <= 4 or sum(inside.values()) != refs.get(nm, 0):
                             continue
                         if any(o_ is not cls_ and (o_.name in _ancestors(cls_.name, class_defs) or cls_.name in _ancestors(o_.name, class_defs)) for o_ in owners):
                             continue
@@ -872,32 +881,33 @@ def _inline_helpers(trees):
                     rets = [x for s_ in body for x in ast.walk(s_) if isinstance(x, ast.Return)]
                     if not _returns_in_tail_position(body):
                         continue
-                    # the single reference: a whole-statement call in a sibling method
-                    site = None
+                    # the references: whole-statement calls in sibling methods
+                    sites = []
                     for g in [f for f in cls_.body if isinstance(f, ast.FunctionDef) and f is not h]:
                         for owner in ast.walk(g):
                             for fld in ("body", "orelse", "finalbody"):
                                 blk = getattr(owner, fld, None)
                                 if not (isinstance(blk, list) and blk and isinstance(blk[0], ast.stmt)):
                                     continue
-                                for i, st in enumerate(blk):
+                                for st in blk:
                                     call = st.value if isinstance(st, (ast.Expr, ast.Return)) else (st.value if isinstance(st, ast.Assign) and len(st.targets) == 1 else None)
-                                    if isinstance(call, ast.Call) and isinstance(call.func, ast.Attribute) and call.func.attr == nm and isinstance(call.func.value, ast.Name) and call.func.value.id == "self":
-                                        site = (g, blk, i, st, call)
-                    if site is None:
+                                    if isinstance(call, ast.Call) and isinstance(call.func, ast.Attribute) and call.func.attr == nm and isinstance(call.func.value, ast.Name) and call.func.value.id == "self" and not any(s_[2] is st for s_ in sites):
+                                        sites.append((g, blk, st, call))
+                    if len(sites) != n_refs_here:
                         continue
-                    g, blk, i, st, call = site
-                    sub = _substitute_call(h, 1, body, rets, st, call, g, nm)
-                    if sub is None:
+                    subs = [_substitute_call(h, 1, body, rets, st, call, g, nm) for g, blk, st, call in sites]
+                    if any(s_ is None for s_ in subs):
                         continue
-                    pre, new_body, post = sub
-                    blk[i : i + 1] = pre + new_body + post or [ast.copy_location(ast.Pass(), st)]
+                    for (g, blk, st, call), (pre, new_body, post) in zip(sites, subs):
+                        i = next(k for k, x in enumerate(blk) if x is st)
+                        blk[i : i + 1] = pre + new_body + post or [ast.copy_location(ast.Pass(), st)]
                     cls_.body.remove(h)
                     ast.fix_missing_locations(tree)
-                    refs[nm] = refs.get(nm, 1) - 1  # the body moved (its references with it); only this reference to the helper disappeared
+                    refs[nm] = refs.get(nm, 0) - n_refs_here
                     if cls_ in method_owners.get(nm, []):
                         method_owners[nm].remove(cls_)
                     changed = True
+                    continue
         if not changed:
             return
 
